@@ -120,6 +120,20 @@ SKELETON_TARGETS = [
      'find_markers_for_all_taxonomy_pairs', None),
     ('typeAssignment', 'type_assignment/election.py',
      'run_type_assignment_on_h5ad_cpu', None),
+    # helpers called inside the stages that own a scratch directory
+    ('findMarkersFromPMask', 'diff_exp/p_value_markers.py',
+     'find_markers_for_all_taxonomy_pairs_from_p_mask', None),
+    ('createPValueMask', 'diff_exp/p_value_mask.py',
+     'create_p_value_mask_file', None),
+    ('amalgamateH5ad', 'utils/anndata_utils.py', 'amalgamate_h5ad', None),
+    ('pivotCsrH5ad', 'utils/anndata_utils.py', 'pivot_csr_h5ad', None),
+    ('transposeByWayOfDisk', 'utils/csc_to_csr.py',
+     'transpose_by_way_of_disk', None),
+    ('transposeOnDiskV2', 'utils/csc_to_csr_parallel.py',
+     'transpose_sparse_matrix_on_disk_v2', None),
+    ('addSparseByGene', 'diff_exp/markers.py',
+     'add_sparse_by_gene_markers_to_file', None),
+    ('roundXToIntegers', 'validation/utils.py', 'round_x_to_integers', None),
 ]
 
 
@@ -402,7 +416,7 @@ SCRATCH_PARAMS = {
 def skeleton_of(repo, rel, func, cls=None):
     tree = ast.parse(_src(repo, rel))
     fn = _find_func(tree, func, cls)
-    sp, op = SCRATCH_PARAMS[func]
+    sp, op = SCRATCH_PARAMS.get(func, (['tmp_dir'], []))
     sk = _Skel(fn, list(sp), list(op))
     body = _squash(sk.stmts(fn.body))
     return body, sk.n_mk
